@@ -297,7 +297,7 @@ Proof.
 Qed.
 
 Lemma core_peel : forall t, plain t = true ->
-  (exists nm s, core t = IAliasStr nm s /\ peel t = IForwardRef s (Some user_module)) \/ core t = peel t.
+  (exists nm s, core t = IAliasStr nm s /\ peel t = IForwardRef (fref_name user_module s) (Some user_module)) \/ core t = peel t.
 Proof.
   induction t; intro Hp; cbn [core peel plain] in *; try (right; reflexivity); try discriminate Hp.
   - apply IHt; exact Hp.
